@@ -59,6 +59,11 @@ CLAIMED = {
   note="Trusted: Go type checker, go/ssa, the layout extractor (interprets byte stores, shifts with widening check, constant-bound loops, zero fills, string regions; anything else is reported as uninterpreted, never skipped).",
   technique="byte-layout extraction and writer/reader agreement over SSA (sibling-codec cross-check), custom checker",
   ref="DESIGN.md section 4 C14"),
+ "C13": dict(
+  text="Static analysis over a stated domain of crash sites reachable from client bytes: every index / re-slice of a text command's argument list (82 sites in 40+ handlers and converters, caller-guaranteed lengths propagated) is covered by a length test on its path; every result code has a text rendering; the four optional value pointers are dereferenced only after a non-nil test (201 sites, register-precise); value frames read from a connection or cut out of client bytes are length-tested before their 6-byte header and property header are indexed. Nine crash inputs found this way were reproduced and repaired with fix: commits. Sites outside the domain (indices through struct fields, data-dependent offsets, stride arithmetic) are counted, not claimed; overflow, allocation size, channel misuse and deadlock are not decided, hence 'other'.",
+  note="Trusted: Go type checker, go/ssa, VTA call graph, the explorer's facts (interval reasoning on len tests); axiom: registry-dispatched handlers receive len(args) >= 1; one tabled nil-invariant (ProcessRecoverLockData).",
+  technique="path-sensitive SSA bounds/nil-guard dataflow (minimum-length and non-nil facts, interprocedural argument-list lengths), custom checker",
+  ref="DESIGN.md section 4 C13"),
 }
 
 NA = {
